@@ -32,7 +32,7 @@ import (
 )
 
 func init() {
-	gens["c14sc"] = genC14SC
+	gens["c14sc"] = c14GenSC
 	if len(os.Args) >= 2 && os.Args[1] == "c14race" {
 		seed, rounds := uint64(1), 20
 		if len(os.Args) >= 3 {
@@ -41,19 +41,19 @@ func init() {
 		if len(os.Args) >= 4 {
 			rounds, _ = strconv.Atoi(os.Args[3])
 		}
-		os.Exit(gfRaceMain(seed, rounds))
+		os.Exit(fRaceMain(seed, rounds))
 	}
 }
 
 // yield perturbation: a lock-free pseudo-random decision per hook call.
-var gfYieldState atomic.Uint64
-var gfYieldCalls [5]atomic.Int64
+var fYieldState atomic.Uint64
+var fYieldCalls [5]atomic.Int64
 
-func gfYield(point int) {
-	if point >= 0 && point < len(gfYieldCalls) {
-		gfYieldCalls[point].Add(1)
+func fYield(point int) {
+	if point >= 0 && point < len(fYieldCalls) {
+		fYieldCalls[point].Add(1)
 	}
-	z := gfYieldState.Add(0x9E3779B97F4A7C15)
+	z := fYieldState.Add(0x9E3779B97F4A7C15)
 	z = (z ^ (z >> 30)) * 0xBF58476D1CE4E5B9
 	z = (z ^ (z >> 27)) * 0x94D049BB133111EB
 	z ^= z >> 31
@@ -70,50 +70,50 @@ func gfYield(point int) {
 	}
 }
 
-func gfSetHooks(on bool) {
+func fSetHooks(on bool) {
 	if on {
-		filterlist.VerifYieldHook = gfYield
-		rules.VerifYieldHook = gfYield
+		filterlist.VerifYieldHook = fYield
+		rules.VerifYieldHook = fYield
 	} else {
 		filterlist.VerifYieldHook = nil
 		rules.VerifYieldHook = nil
 	}
 }
 
-// gfSetAnswer is the canonical answer of a query as SETS (a rule retrieved by
+// fSetAnswer is the canonical answer of a query as SETS (a rule retrieved by
 // two goroutines at once exists as two equal objects, so the pointer-based
 // duplicate suppression of the shortcuts table may let a duplicate through;
 // DESIGN.md section 6: results are compared as sets).
-func gfSetAnswer(g *gfEngines, q *gfQuery) (set string, exact string) {
+func fSetAnswer(g *fEngines, q *fQuery) (set string, exact string) {
 	set = guardStr(func() string {
 		switch q.kind {
 		case "dns":
 			res, matched := g.d.MatchRequest(q.dns)
 			var v4, v6 []string
 			for _, h := range res.HostRulesV4 {
-				v4 = append(v4, gfRuleKey(h))
+				v4 = append(v4, fRuleKey(h))
 			}
 			for _, h := range res.HostRulesV6 {
-				v6 = append(v6, gfRuleKey(h))
+				v6 = append(v6, fRuleKey(h))
 			}
-			exact = gfSerDNS(res, matched)
+			exact = fSerDNS(res, matched)
 
-			return fmt.Sprintf("matched=%v rule=%s all=%q v4=%q v6=%q rwAll=%q rw=%q", matched, gfNetKey(res.NetworkRule),
-				gfSortedSet(gfKeysOfNet(res.NetworkRules)), gfSortedSet(v4), gfSortedSet(v6),
-				gfSortedSet(gfKeysOfNet(res.DNSRewritesAll())), gfSortedSet(gfKeysOfNet(res.DNSRewrites())))
+			return fmt.Sprintf("matched=%v rule=%s all=%q v4=%q v6=%q rwAll=%q rw=%q", matched, fNetKey(res.NetworkRule),
+				fSortedSet(fKeysOfNet(res.NetworkRules)), fSortedSet(v4), fSortedSet(v6),
+				fSortedSet(fKeysOfNet(res.DNSRewritesAll())), fSortedSet(fKeysOfNet(res.DNSRewrites())))
 		case "web":
 			m := g.e.MatchRequest(q.web)
-			exact = gfSerMatching(m)
+			exact = fSerMatching(m)
 
 			return exact
 		case "all":
 			rs := g.n.MatchAll(q.web)
 			one, ok := g.n.Match(q.web)
-			exact = fmt.Sprintf("all=%s match=%s/%v", gfNetKeys(rs), gfNetKey(one), ok)
+			exact = fmt.Sprintf("all=%s match=%s/%v", fNetKeys(rs), fNetKey(one), ok)
 
-			return fmt.Sprintf("all=%q match=%s/%v", gfSortedSet(gfKeysOfNet(rs)), gfNetKey(one), ok)
+			return fmt.Sprintf("all=%q match=%s/%v", fSortedSet(fKeysOfNet(rs)), fNetKey(one), ok)
 		default:
-			exact = gfSerCosmetic(g.e.GetCosmeticResult(q.host, q.opt))
+			exact = fSerCosmetic(g.e.GetCosmeticResult(q.host, q.opt))
 
 			return exact
 		}
@@ -125,7 +125,7 @@ func gfSetAnswer(g *gfEngines, q *gfQuery) (set string, exact string) {
 	return set, exact
 }
 
-type gfRoundResult struct {
+type fRoundResult struct {
 	evals      int
 	mismatches []string
 	dupOnly    int
@@ -134,25 +134,25 @@ type gfRoundResult struct {
 	dupSamples []string
 }
 
-// gfConcRound: one world, one request multiset, sequential reference, then
+// fConcRound: one world, one request multiset, sequential reference, then
 // concurrent runs (cold, then warm) for a few goroutine counts.
-func gfConcRound(r *rng, round int) (res gfRoundResult) {
-	world := gfGenWorld(r, 30, round%3)
+func fConcRound(r *rng, round int) (res fRoundResult) {
+	world := fGenWorld(r, 30, round%3)
 	defer world.cleanup()
-	pool := gfGenQueryPool(r, world, 8+r.n(16))
+	pool := fGenQueryPool(r, world, 8+r.n(16))
 	m := 24 + r.n(72)
-	qs := make([]*gfQuery, m)
+	qs := make([]*fQuery, m)
 	for i := range qs {
 		qs[i] = pick(r, pool)
 	}
 	// sequential reference on a fresh engine, hooks off
-	gfSetHooks(false)
+	fSetHooks(false)
 	ss := world.storage(nil, false)
-	sg := gfBuild(ss)
+	sg := fBuild(ss)
 	wantSet := make([]string, m)
 	wantExact := make([]string, m)
 	for i, q := range qs {
-		wantSet[i], wantExact[i] = gfSetAnswer(sg, q)
+		wantSet[i], wantExact[i] = fSetAnswer(sg, q)
 		if !strings.Contains(wantSet[i], "[]") || strings.Contains(wantSet[i], "rule=-") {
 			res.nontrivial++
 		}
@@ -162,7 +162,7 @@ func gfConcRound(r *rng, round int) (res gfRoundResult) {
 	res.desc = fmt.Sprintf("round %d: %d queries over %v goroutines; %s", round, m, gs, world.describe())
 	for _, g := range gs {
 		cs := world.storage(nil, false)
-		cg := gfBuild(cs)
+		cg := fBuild(cs)
 		for pass := 0; pass < 2; pass++ { // 0 = cold cache, 1 = warm cache
 			// random partition of the multiset
 			part := make([][]int, g)
@@ -172,7 +172,7 @@ func gfConcRound(r *rng, round int) (res gfRoundResult) {
 			}
 			gotSet := make([]string, m)
 			gotExact := make([]string, m)
-			gfSetHooks(true)
+			fSetHooks(true)
 			var wg sync.WaitGroup
 			start := make(chan struct{})
 			for k := 0; k < g; k++ {
@@ -181,13 +181,13 @@ func gfConcRound(r *rng, round int) (res gfRoundResult) {
 					defer wg.Done()
 					<-start
 					for _, i := range mine {
-						gotSet[i], gotExact[i] = gfSetAnswer(cg, qs[i])
+						gotSet[i], gotExact[i] = fSetAnswer(cg, qs[i])
 					}
 				}(part[k])
 			}
 			close(start)
 			wg.Wait()
-			gfSetHooks(false)
+			fSetHooks(false)
 			for i := range qs {
 				res.evals++
 				if gotSet[i] != wantSet[i] {
@@ -207,28 +207,28 @@ func gfConcRound(r *rng, round int) (res gfRoundResult) {
 	return res
 }
 
-func genC14SC(r *rng, n int, w *bufio.Writer) {
-	gfSilenceLogs()
+func c14GenSC(r *rng, n int, w *bufio.Writer) {
+	fSilenceLogs()
 	for i := 0; i < n; i++ {
-		res := gfConcRound(r, i)
+		res := fConcRound(r, i)
 		ans := "T"
 		note := res.desc
 		if len(res.mismatches) > 0 {
 			ans = "F"
 			note = "FIRST DIFFERENCE: " + res.mismatches[0] + "; " + note
 		}
-		fmt.Fprintf(w, "assert c14sc %d %d %s = %s ## %s\n", i, res.evals, gfHash(res.desc), ans, strings.ReplaceAll(note, "\n", "\\n"))
+		fmt.Fprintf(w, "assert c14sc %d %d %s = %s ## %s\n", i, res.evals, fHash(res.desc), ans, strings.ReplaceAll(note, "\n", "\\n"))
 	}
 }
 
-func gfRaceMain(seed uint64, rounds int) int {
-	gfSilenceLogs()
+func fRaceMain(seed uint64, rounds int) int {
+	fSilenceLogs()
 	r := newRng(seed)
 	t0 := time.Now()
 	evals, dup, nontrivial, dupShown := 0, 0, 0, 0
 	var mism []string
 	for i := 0; i < rounds; i++ {
-		res := gfConcRound(r, i)
+		res := fConcRound(r, i)
 		evals += res.evals
 		dup += res.dupOnly
 		nontrivial += res.nontrivial
@@ -251,8 +251,8 @@ func gfRaceMain(seed uint64, rounds int) int {
 		fmt.Println("MISMATCH " + strings.ReplaceAll(m, "\n", "\\n"))
 	}
 	fmt.Printf("SUMMARY rounds=%d evaluations=%d mismatches=%d duplicates_only=%d nontrivial_sequential=%d yields=%d/%d/%d/%d wall_s=%.1f\n",
-		rounds, evals, len(mism), dup, nontrivial, gfYieldCalls[1].Load(), gfYieldCalls[2].Load(), gfYieldCalls[3].Load(),
-		gfYieldCalls[4].Load(), time.Since(t0).Seconds())
+		rounds, evals, len(mism), dup, nontrivial, fYieldCalls[1].Load(), fYieldCalls[2].Load(), fYieldCalls[3].Load(),
+		fYieldCalls[4].Load(), time.Since(t0).Seconds())
 	if len(mism) > 0 {
 		return 3
 	}
